@@ -129,7 +129,10 @@ def pick_dim(w, rng, a, by_pos=0.3):
         return None, None
     i = rng.randrange(a.ndim)
     nm = a.dims[i]
-    return nm, (i if rng.random() < by_pos else nm)
+    if rng.random() < by_pos:
+        # positions count from the end too
+        return nm, (i - a.ndim if rng.random() < 0.3 else i)
+    return nm, nm
 
 
 def out(w):
@@ -169,7 +172,7 @@ def _construct():
 def _construct_helper():
     def gen(w, rng):
         spec = V.gen_array_spec(rng, w.cfg, dtype="f8")
-        return {"which": rng.choice(["zeros", "ones", "nans", "empty", "zeros_like", "ones_like", "array", "zeros_shape", "ones_shape", "noval"]),
+        return {"which": rng.choice(["zeros", "ones", "nans", "empty", "zeros_like", "ones_like", "array", "zeros_shape", "ones_shape", "noval", "nans_like", "empty_like"]),
                 "spec": spec, "out": out(w)}
 
     def run(w, s):
@@ -198,6 +201,11 @@ def _construct_helper():
             a = da.zeros_like(ref); exp = 0.0
         elif which == "ones_like":
             a = da.ones_like(ref); exp = 1.0
+        elif which == "nans_like":
+            a = da.nans_like(ref); exp = None
+        elif which == "empty_like":
+            a = da.empty_like(ref); exp = "any"
+            a.values[...] = 0.0
         else:
             a = da.array(V.values_array(spec), axes=pairs); exp = "ref"
         if "C05" in w.props:
@@ -476,6 +484,22 @@ def _reduce():
         if isinstance(ax, list):
             ax = tuple(ax)
         return getattr(a, s["fn"])(axis=ax, skipna=s["skipna"])
+    return gen, run
+
+
+@defop("percentile", "transform", weight=0.4)
+def _percentile():
+    def gen(w, rng):
+        a_id = pick_arr(w, rng, lambda a: a.dtype.kind in "fi" and a.ndim > 0 and a.size > 0)
+        if a_id is None:
+            return None
+        a = w.arr(a_id)
+        pct = rng.choice([50, 10.0, [50, 95], [25, 50, 75], [5]])
+        return {"a": a_id, "pct": pct, "axis": pick_dim(w, rng, a)[1], "out": out(w)}
+
+    def run(w, s):
+        import dimarray as da
+        return da.percentile(w.arr(s["a"]), s["pct"], axis=s["axis"])
     return gen, run
 
 
@@ -1138,13 +1162,13 @@ def _compare():
     return gen, run
 
 
-@defop("unary", "arith", weight=0.6)
+@defop("unary", "arith", prop16="drop", weight=0.6)
 def _unary():
     def gen(w, rng):
         a_id = pick_arr(w, rng, lambda a: a.dtype.kind in "fi")
         if a_id is None:
             return None
-        return {"a": a_id, "fn": rng.choice(["neg", "pos", "abs"]), "out": out(w)}
+        return {"a": a_id, "fn": rng.choice(["neg", "pos", "pos_method"]), "out": out(w)}
 
     def run(w, s):
         a = w.arr(s["a"])
@@ -1152,7 +1176,22 @@ def _unary():
             return -a
         if s["fn"] == "pos":
             return +a
-        return a.apply(np.abs)
+        if s["fn"] == "pos_method":
+            return a.__pos__()
+        return a.apply(np.abs)       # recorded by older replay files
+    return gen, run
+
+
+@defop("apply", "arith", weight=0.3)
+def _apply():
+    def gen(w, rng):
+        a_id = pick_arr(w, rng, lambda a: a.dtype.kind in "fi")
+        if a_id is None:
+            return None
+        return {"a": a_id, "out": out(w)}
+
+    def run(w, s):
+        return w.arr(s["a"]).apply(np.abs)
     return gen, run
 
 
@@ -1214,10 +1253,18 @@ def _set_axis_copy():
         labs = plain_labels(a.axes[nm])
         if labs is None:
             return None
-        return {"a": a_id, "axis": ref, "values": fresh_labels(rng, len(labs), labs), "out": out(w)}
+        st = {"a": a_id, "axis": ref, "values": fresh_labels(rng, len(labs), labs), "out": out(w)}
+        free = [n for n in NEWDIMS if n not in a.dims]
+        if free and rng.random() < 0.3:
+            st["name"] = rng.choice(free)
+            if rng.random() < 0.5:
+                st["values"] = None
+        return st
 
     def run(w, s):
-        return w.arr(s["a"]).set_axis(V.label_array(s["values"]), axis=s["axis"], inplace=False)
+        kw = {"name": s["name"]} if s.get("name") else {}
+        vals = V.label_array(s["values"]) if s.get("values") is not None else None
+        return w.arr(s["a"]).set_axis(vals, axis=s["axis"], inplace=False, **kw)
     return gen, run
 
 
